@@ -5,6 +5,7 @@ rows = []
 for f in sorted(glob.glob(os.path.join(HERE, "seeded", "*", "meta.json"))):
     m = json.load(open(f))
     rows.append(m)
+rows.sort(key=lambda m: (m["property"], int(m["id"].split("-")[1])))
 out = ["# Seeded breaking changes", "",
        "Each directory holds `patch.diff` (applies to /repo HEAD with `git apply`), `demo.py` (exit 0 on the unchanged tree, non-zero with the patch),",
        "and `meta.json`.  The changes were written by fresh sub-agents that saw only the property text and a scratch worktree of /repo.",
